@@ -63,3 +63,6 @@ def define(M):
     M("C15", "tf_empty_glyph_early_return", "Lib/ufo2ft/filters/transformations.py",
       "            size = matrix.transformVector((glyph.width, glyph.height))\n            if size == (glyph.width, glyph.height):\n                return False\n            glyph.width, glyph.height = size\n            return True",
       "            return False")
+    # the repaired defect (ba9d2cb) put back: outline-less component in a mark ligature
+    M("C15", "pa_bounds_none_subscripted", "Lib/ufo2ft/filters/propagateAnchors.py",
+      "    if bounds is None:", "    if bounds is False:")
